@@ -30,7 +30,7 @@ from playback.tape_recorder import TapeRecorder
 BASE = datetime.datetime(2020, 2, 27, 0, 0, 0)
 SCRATCH = "/tmp/lookup-scratch-%d" % os.getpid()
 DECOYS = {'': ['metadata', 'p'], 'p': ['pq', 'p/q', ''], 'p/q': ['p', 'p/qq'], 'pq': ['p', ''],
-          'metadata': ['', 'metadata/metadata']}
+          'metadata': ['', 'metadata/metadata'], 'xmetadata/y': ['x', 'xmetadata', 'y']}
 _cache = {}
 _counter = [0]
 _next_hex = [None]
